@@ -359,6 +359,33 @@ pub fn gen_user_props(t: &mut Tape, cfg: &GenCfg) -> Vec<v5::UserProperty> {
             // repeat an earlier entry (same name, possibly same value)
             let e = v[t.pick(v.len())].clone();
             v.push(e);
+        } else if !v.is_empty() && t.chance(1, 4) {
+            // strings that recur across entries and across the two roles: the new name or value is an earlier entry's
+            // name or value (a fresh allocation with the same text, or the same allocation), at least 8 bytes long
+            // every other time
+            let prev = v[if t.flag() { v.len() - 1 } else { t.pick(v.len()) }].clone();
+            let long = Arc::new(format!("trace-id-{}", t.pick(100)));
+            let pick = |t: &mut Tape, e: &v5::UserProperty| -> Arc<String> {
+                let src = if t.flag() { &e.value } else { &e.name };
+                if t.flag() {
+                    src.clone()
+                } else {
+                    Arc::new(src.as_str().to_string())
+                }
+            };
+            let (name, value) = match t.pick(4) {
+                0 => (pick(t, &prev), gen_arc_string(t, cfg)),
+                1 => (gen_arc_string(t, cfg), pick(t, &prev)),
+                2 => (prev.value.clone(), prev.name.clone()),
+                _ => {
+                    // the previous entry gets a long value first, which then comes back as the next name
+                    if let Some(last) = v.last_mut() {
+                        last.value = long.clone();
+                    }
+                    (Arc::new(long.as_str().to_string()), gen_arc_string(t, cfg))
+                }
+            };
+            v.push(v5::UserProperty { name, value });
         } else {
             v.push(v5::UserProperty { name: gen_arc_string(t, cfg), value: gen_arc_string(t, cfg) });
         }
